@@ -8,33 +8,44 @@ def sh(cmd):
     return p.returncode, p.stdout
 
 only = set(sys.argv[1:])
+# SWEEP_WT=<dir>: work on a scratch worktree of /repo HEAD (created here) instead of patching /repo itself
+WT = os.environ.get("SWEEP_WT")
+TARGET = WT or "/repo"
+ENV = ("VERIF_REPO=%s " % WT) if WT else ""
+if WT:
+    sh("git -C /repo worktree remove --force %s; rm -rf %s" % (WT, WT))
+    rc0, out0 = sh("git -C /repo worktree add -q --detach %s HEAD" % WT)
+    assert rc0 == 0, out0
 # changes whose breakage needs a history on one long-lived object: the history check (C10) is what catches them
 EXTRA = {"C04-m2": ["C10"], "C11-m3": ["C10"], "C02-m4": ["C10"], "C15-m5": ["C17"], "C01-m3": ["C08"]}
-rc, out = sh("git -C /repo diff --quiet")
-assert rc == 0, "/repo has uncommitted changes"
+rc, out = sh("git -C %s diff --quiet" % TARGET)
+assert rc == 0, TARGET + " has uncommitted changes"
 res = {}
 for d in sorted(os.listdir("/verif/seeded")):
     prop = d.split("-")[0]
     if only and prop not in only and d not in only:
         continue
     patch = "/verif/seeded/%s/patch.diff" % d
-    rc, out = sh("git -C /repo apply --check %s" % patch)
+    rc, out = sh("git -C %s apply --check %s" % (TARGET, patch))
     if rc != 0:
         print(d, "DOES-NOT-APPLY", out.strip()[:100]); res[d] = "does-not-apply"; continue
-    sh("git -C /repo apply %s" % patch)
+    sh("git -C %s apply %s" % (TARGET, patch))
     caught_by = []
     first = ""
     try:
         for chk in [prop] + EXTRA.get(d, []):
-            rc, out = sh("/verif/bin/check %s --tier quick 2>/dev/null | grep -E 'VIOLATION|KNOWN-FINDING'" % chk)
+            rc, out = sh("%s/verif/bin/check %s --tier quick 2>/dev/null | grep -E 'VIOLATION|KNOWN-FINDING'" % (ENV, chk))
             viol = [l for l in out.splitlines() if l.startswith("VIOLATION")]
             if viol:
                 caught_by.append(chk + ("(no-failing-input-found)" if viol[0].endswith("no-failing-input-found") else ""))
                 first = first or viol[0][:90]
     finally:
-        sh("git -C /repo checkout -- .")
+        sh("git -C %s checkout -- ." % TARGET)
     res[d] = "caught" if caught_by else "MISSED"
     mp = "/verif/seeded/%s/meta.json" % d
+    if os.environ.get("VERIF_SEED"):
+        print(d, res[d], caught_by, "(seed %s, meta not updated)" % os.environ["VERIF_SEED"], flush=True)
+        continue
     try:
         meta = json.load(open(mp))
         meta["resweep"] = {"repo_head": sh("git -C /repo rev-parse --short HEAD")[1].strip(), "caught_by": caught_by}
@@ -42,5 +53,7 @@ for d in sorted(os.listdir("/verif/seeded")):
     except Exception:
         pass
     print(d, res[d], caught_by, first, flush=True)
-json.dump(res, open("/verif/build/sweep_seeded.json", "w"), indent=1)
+if WT:
+    sh("git -C /repo worktree remove --force %s; rm -rf %s" % (WT, WT))
+json.dump(res, open("/verif/build/sweep_seeded%s.json" % ("_seed" + os.environ["VERIF_SEED"] if os.environ.get("VERIF_SEED") else ""), "w"), indent=1)
 print("missed:", [k for k, v in res.items() if v != "caught"])
